@@ -185,6 +185,10 @@ func mkAdapter(name string) inprocgrpc.Cloner {
 		return inprocgrpc.CopyFunc(goodCopy)
 	case "raw": // the reference functions themselves, for selfCheck only
 		return rawCloner{}
+	case "faulty:stale-by-identity": // calibration of the sequence grammar only (seqs.go)
+		return &staleCloner{seen: map[interface{}]interface{}{}}
+	case "faulty:same-object-twice":
+		return &twinCloner{}
 	}
 	panic("unknown adapter " + name)
 }
@@ -204,6 +208,10 @@ type kase struct {
 	Inner       string `json:"inner,omitempty"` // spec copied by the inner copy
 	InnerSrcRep string `json:"inner_src_rep,omitempty"`
 	InnerDstRep string `json:"inner_dst_rep,omitempty"`
+	// operation sequences on one adapter object (seqs.go): Op == "Seq", Src / SrcRep describe the base object x0
+	Seq []step `json:"seq,omitempty"`
+	// (not part of a case of the grammar: used when the failing step of a sequence is repeated in isolation)
+	freshAt int // > 0: a new adapter object takes over just before step freshAt (0-based)
 }
 
 type npBytes struct {
@@ -237,6 +245,9 @@ func (k kase) srcType() string {
 
 // expect: "copy" when the statement promises a copy, "refuse" when it promises an error.
 func (k kase) expect() string {
+	if len(k.Seq) > 0 {
+		return "sequence"
+	}
 	if k.Hook != "" {
 		return "overlap"
 	}
@@ -248,6 +259,9 @@ func (k kase) expect() string {
 
 // pairing class, the part of the fingerprint that says which kinds of things met.
 func (k kase) pairing() string {
+	if len(k.Seq) > 0 {
+		return "seq"
+	}
 	if k.Hook != "" {
 		return "overlap:" + k.SrcRep + "->" + k.DstRep + "@" + k.Hook
 	}
@@ -273,7 +287,7 @@ func (k kase) pairing() string {
 }
 
 func (k kase) key() string {
-	return strings.Join([]string{k.Adapter, k.Op, k.Src, k.SrcRep, k.DstType, k.DstRep, k.DstFill, k.Hook, k.Inner, k.InnerSrcRep, k.InnerDstRep}, "|")
+	return strings.Join([]string{k.Adapter, k.Op, k.Src, k.SrcRep, k.DstType, k.DstRep, k.DstFill, k.Hook, k.Inner, k.InnerSrcRep, k.InnerDstRep}, "|") + seqKey(k.Seq, nil)
 }
 
 func (k kase) buildSrc() interface{} {
@@ -302,6 +316,7 @@ func (k kase) buildDst() interface{} {
 type finding struct {
 	Clause string
 	What   string
+	Class  string // sequences: "<operation>|<class of the failing step>", replaces the case's own operation and pairing in the fingerprint
 }
 
 type outcome struct {
@@ -310,6 +325,10 @@ type outcome struct {
 	Mutations int  // in-place mutations applied during the disjointness test (both objects)
 	Reached   bool // the adapter operation was invoked and returned / panicked
 	Internal  string
+	EffKey    string   // sequences: the steps with every modification that changed nothing struck out
+	failStep  int      // sequences: index of the step whose operation failed (-1: none, or seen at a modification)
+	seqRun    []step   // sequences: the (prefix of the) sequence that was run when it failed
+	failReps  []string // sequences: representation of every object at that time
 }
 
 func invoke(c inprocgrpc.Cloner, k kase, src, dst interface{}) (res interface{}, err error, panicked interface{}) {
@@ -334,6 +353,9 @@ func short(b []byte) string {
 }
 
 func runCase(k kase) (o outcome) {
+	if len(k.Seq) > 0 {
+		return runSeq(k)
+	}
 	if k.Hook != "" {
 		return runOverlap(k)
 	}
@@ -348,7 +370,7 @@ func runCase(k kase) (o outcome) {
 	if k.Op == "Copy" {
 		dst = k.buildDst()
 	}
-	add := func(clause, what string) { o.Findings = append(o.Findings, finding{clause, what}) }
+	add := func(clause, what string) { o.Findings = append(o.Findings, finding{Clause: clause, What: what}) }
 
 	if k.expect() == "refuse" {
 		_, err, p := invoke(c, k, src, dst)
@@ -487,6 +509,9 @@ func equalOnly(k kase) (ok bool) {
 }
 
 func describe(k kase) string {
+	if len(k.Seq) > 0 {
+		return fmt.Sprintf("%s %s[%s] as x0; %s", k.Adapter, k.Src, k.SrcRep, seqString(k.Seq))
+	}
 	s := fmt.Sprintf("%s %s[%s]", k.Adapter, k.Src, k.SrcRep)
 	if k.Hook != "" {
 		fill := "empty"
